@@ -47,7 +47,7 @@ finally:
     shutil.rmtree(backup, ignore_errors=True)
     subprocess.run(["git", "-C", "/repo", "status", "--short"])
     if isolated:
-        subprocess.run("git -C /repo worktree remove --force %s; rm -rf /verif/.build-alt-*" % ROOT, shell=True)
+        subprocess.run("git -C /repo worktree remove --force %s" % ROOT, shell=True)
 if not only:
     out = ["# Hand-written mutants (tools/mutants.json) and the verdict of the quick tier", "", "| mutant | file | verdict |", "|---|---|---|"]
     for r in rows:
